@@ -5,3 +5,43 @@ From CiwV Require Import Sx Acc.C08.
 Theorem C08_sound : forall l st, C08.acc l = Accept st -> forall s, In s l -> C08.P_start s.
 Proof. exact C08.C08_sound. Qed.
 Print Assumptions C08_sound.
+
+(* ---- T2 (function level): in the engine model (coq/Engine, tied to /repo by the stepwise correspondence check K2) the
+   customer handed to the service-start block is the one the property prescribes, and a service start changes nobody else ---- *)
+From Coq Require Import ZArith List.
+From CiwV.Engine Require Import State Engine.
+From CiwV.Inv Require Import Frame Order.
+Import ListNotations.
+Open Scope Z_scope.
+
+(* the chosen customer waits, belongs to the first priority class in which anybody waits, and within that class is the
+   first waiting one in queue order under FIFO (0), the last under LIFO (1), some waiting one under SIRO *)
+Theorem chosen_is_prescribed : forall cf nd s c s', Engine.choose_next_customer cf nd s = Ok (Some c, s') ->
+  exists pre q post d, n_queues nd = pre ++ q :: post /\ Order.disc_of cf (n_id nd) = Some d /\
+    In c q /\ Order.iswait (inds s) c = true /\
+    (forall q' i, In q' pre -> In i q' -> Order.iswait (inds s) i = false) /\
+    (d = 0 -> exists a b, q = a ++ c :: b /\ forall i, In i a -> Order.iswait (inds s) i = false) /\
+    (d = 1 -> exists a b, q = a ++ c :: b /\ forall i, In i b -> Order.iswait (inds s) i = false).
+Proof. exact Order.chosen_is_prescribed. Qed.
+Print Assumptions chosen_is_prescribed.
+
+(* nobody is chosen only when nobody waits *)
+Theorem none_chosen_none_waiting : forall cf nd s s', Engine.choose_next_customer cf nd s = Ok (None, s') ->
+  Engine.first_waiting (n_queues nd) (inds s) = [].
+Proof. intros cf nd s s' H. exact (proj2 (proj2 (Order.choose_next_customer_spec cf nd s None s' H))). Qed.
+Print Assumptions none_chosen_none_waiting.
+
+(* the server freed by a departure goes to the discipline's choice, and nothing about any other customer changes *)
+Theorem bsip_release_starts_chosen : forall cf j sid s s', Engine.begin_service_if_possible_release cf j (Some sid) s = Ok (tt, s') ->
+  inds s' = inds s \/
+  exists nd c s1, Engine.nthZ (nodes s) (j - 1) = Some nd /\ Engine.choose_next_customer cf nd s = Ok (Some c, s1) /\
+    forall i', i' <> c -> Engine.find_ind i' (inds s') = Engine.find_ind i' (inds s).
+Proof. exact Order.bsip_release_starts_chosen. Qed.
+Print Assumptions bsip_release_starts_chosen.
+
+(* queue order is arrival order: accept puts the customer at the tail of the queue of its declared priority class *)
+Theorem accept_appends : forall cf j x s s', Frame.Idx s -> Engine.accept cf j x s = Ok (tt, s') ->
+  exists nd nd' q, Engine.nthZ (nodes s) (j - 1) = Some nd /\ Engine.nthZ (nodes s') (j - 1) = Some nd' /\
+    Engine.nthZ (n_queues nd) (i_prio x) = Some q /\ n_queues nd' = Engine.updZ (n_queues nd) (i_prio x) (q ++ [i_id x]).
+Proof. exact Order.accept_appends. Qed.
+Print Assumptions accept_appends.
